@@ -610,9 +610,18 @@ func c15EmptyLedger(w *core.WorkerCtx) {
 				return svc.Sign(u, b.Blob)
 			}
 			shape := fmt.Sprintf("valid request of wallet %d on a node with an empty ledger", ui)
-			e.call("notary", "Balance", shape, true, func() (any, error) { return rig.Notary.Balance(ctx, signed()) })
-			e.call("notary", "TransactionsInDAG", shape, true, func() (any, error) { return rig.Notary.TransactionsInDAG(ctx, signed()) })
-			e.call("notary", "Waiting", shape, true, func() (any, error) { return rig.Notary.Waiting(ctx, signed()) })
+			e.call("notary", "Balance", shape, true, func() (any, error) {
+				rig.Flash.RemoveAddress(u.Addr)
+				return rig.Notary.Balance(ctx, svc.Sign(u, []byte(u.Addr)))
+			})
+			e.call("notary", "TransactionsInDAG", shape, true, func() (any, error) {
+				rig.Flash.RemoveAddress(u.Addr)
+				return rig.Notary.TransactionsInDAG(ctx, signed())
+			})
+			e.call("notary", "Waiting", shape, true, func() (any, error) {
+				rig.Flash.RemoveAddress(u.Addr)
+				return rig.Notary.Waiting(ctx, signed())
+			})
 			e.call("notary", "Saved", shape, true, func() (any, error) {
 				var h [32]byte
 				return rig.Notary.Saved(ctx, svc.Sign(u, h[:]))
